@@ -122,7 +122,7 @@ def rule_R1(ck):
     seq = rets[0].value if len(rets) == 1 else None
     ck.instance(("reader", "Symbol._resolve"), {"lookups in order": [f"{k} {v!r}" for k, v in seq] if seq else repr(ps)}, fn="types::Symbol._resolve")
     if not seq:
-        raise Unknown(f"Symbol._resolve did not complete: {ps}")
+        return ck.incomplete("types::Symbol._resolve", "Symbol._resolve on a defined name", ps)
     cands = [v for k, v in seq if k == "in"]
     if set(cands) != {sym.cat(LP, NAME), sym.cat(IP, NAME)}:
         ck.violation("types::Symbol._resolve", f"a reference looks up {[repr(c) for c in cands]}; definitions are stored under scope prefix + name and file prefix + name", construct="resolve candidates",
@@ -133,6 +133,37 @@ def rule_R1(ck):
     if seq and [k for k, v in seq][:2] != ["in", "in"]:
         ck.violation("types::Symbol._resolve", "the export map is consulted before the scope-keyed candidates", construct="resolve order")
     # the undefined report names nothing else: covered by C03.R1
+    rule_undefined_value(ck)
+
+
+def rule_undefined_value(ck):
+    """a name nobody defines: one error report, and the reference still has a usable integer value and no definition site - the
+    statements around it go on being assembled (more diagnostics in one run) instead of dying on a None"""
+    repo = ck.repo
+    I2 = lazy(repo)
+    I2.summaries["containers::CaseInsensitiveDict.__contains__"] = lambda I_, fn, a, k: False
+    I2.summaries["containers::CaseInsensitiveDict.get"] = lambda I_, fn, a, k: (k.get("default") if len(a) < 3 else a[2])
+
+    def thunk_u():
+        sh = Shapes(I2)
+        comp = I2.instantiate(I2.module_get("compiler", "Compiler"), [], {})
+        s = sh.symbol("nobody")
+        st = mk_state(comp)
+        return I2.call_method(s, "resolve", [st]), I2.call_method(s, "locate_definition", [st])
+    ps = I2.explore(thunk_u)
+    where = "types::Symbol._resolve"
+    ck.instance(("reader", "undefined name"), {"resolve(), locate_definition() of a name nobody defines": repr(ps[0].value) if ps else None,
+                                               "reports": [e[2] for p in ps for e in p.reported()]}, fn=where)
+    if len(ps) != 1 or ps[0].kind != "return":
+        return ck.incomplete(where, "resolve() / locate_definition() of a name nobody defines", ps)
+    val, loc = ps[0].value
+    ids = [e[2] for e in ps[0].reported()]
+    if "undefined-symbol" not in ids:
+        ck.violation(where, f"a name nobody defines is not reported as 'undefined-symbol' (reports: {ids})", construct="undefined symbol report")
+    if isinstance(val, bool) or not isinstance(val, int):
+        ck.violation(where, f"after the 'undefined-symbol' report the reference evaluates to {val!r}, not to an integer: the arithmetic and the encoders around it die with an internal exception instead of going on", construct="undefined symbol value")
+    if loc is not None:
+        ck.violation(where, f"a name nobody defines has the definition site {loc!r}", construct="undefined symbol definition site")
 
 
 def rule_R1k(ck):
@@ -144,11 +175,11 @@ def rule_R1k(ck):
         seen = []
 
         def cl(I_, fn, a, k):
-            seen.append(a[3]["local_symbol_prefix"])
+            seen.append(a[3]["local_symbol_prefix"] if isinstance(a[3], dict) else ("not a state mapping", type(a[3]).__name__))
             return None
 
         def cb(I_, fn, a, k):
-            seen.append(a[1]["internal_symbol_prefix"])
+            seen.append(a[1]["internal_symbol_prefix"] if isinstance(a[1], dict) else ("not a state mapping", type(a[1]).__name__))
             return b""
         I.summaries["compiler::Compiler.compile_label"] = cl
 
@@ -173,7 +204,7 @@ def rule_R1k(ck):
             return local, seen[0]
         ps = I.explore(thunk)
         if len(ps) != 1 or ps[0].kind != "return":
-            raise Unknown(f"prefix extraction failed: {ps}")
+            return ck.incomplete("compiler::Compiler.compile_file", "per-file prefixes handed to compile_block", ps)
         got[n] = ps[0].value
     for idx, fam, where in ((0, "scope (local label)", "compiler::Compiler.compile_block"), (1, "file", "compiler::Compiler.compile_file")):
         a, b = got[1][idx], got[11][idx]
@@ -221,7 +252,7 @@ def rule_R3(ck):
     ps = I.explore(thunk)
     where = "compiler::Compiler.compile_block"
     if len(ps) != 1 or ps[0].kind != "return":
-        raise Unknown(f"compile_block on labels: {ps}")
+        return ck.incomplete(where, "compile_block on labels", ps)
     first, second = ps[0].value
     ck.instance("scopes", {"labels a, 1, b, 1 get scope prefixes": [p for _, p in first], "next block": [p for _, p in second]}, fn=where)
     pa, p1, pb, p1b = [p for _, p in first]
@@ -251,7 +282,7 @@ def rule_R3(ck):
     ps = I2.explore(thunk2)
     ck.instance("file-prefixes", {"three compilations": repr(ps[0].value)[:200]}, fn="compiler::Compiler.compile_file")
     if len(ps) != 1 or ps[0].kind != "return":
-        raise Unknown(f"compile_file: {ps}")
+        return ck.incomplete("compiler::Compiler.compile_file", "compile_file on three files", ps)
     prefs, mapping = ps[0].value
     if len(prefs) != 7:
         raise Unknown(f"compile_file / compile_include: {len(prefs)} blocks compiled for 7 files")
@@ -438,7 +469,7 @@ def rule_R5(ck):
     where = "metacommands::extern"
     ck.instance(("extern-all-route",), {"exported after compiling [early:, .extern all, late:, latec = 5]": repr(ps[0].value)[:160]}, fn=where)
     if len(ps) != 1 or ps[0].kind != "return":
-        raise Unknown(f"compile_file on [early:, .extern all, late:, latec = 5]: {ps}")
+        return ck.incomplete(where, "compile_file on [early:, .extern all, late:, latec = 5]", ps)
     missing = [n for n in ("early", "late", "latec") if n not in ps[0].value]
     if missing:
         ck.violation(where, f"a file 'early: / .extern all / late: / latec = 5' exports {ps[0].value}; {missing} missing: '.extern all' must export the names defined before it AND switch exporting on for every "
